@@ -133,6 +133,55 @@ fn build_fadt(c: &Value, ops: &[Value]) -> fadt::FADT {
             "flag" => b.flag(fadt_flag(str_of(get(a, "v")))),
             "gpe_info" => b.gpe_info(u32_of(get(a, "gpe0_blk")), u32_of(get(a, "gpe1_blk")), u8_of(get(a, "gpe0_len")), u8_of(get(a, "gpe1_len")), u8_of(get(a, "gpe1_base"))),
             "preferred_pm_profile" => b.preferred_pm_profile(pm_profile(str_of(get(a, "v")))),
+            "set" => {
+                // public fields are filled in by direct assignment
+                let v = get(a, "v");
+                match str_of(get(a, "f")) {
+                    "checksum" => b.checksum = u8_of(v),
+                    "flags" => b.flags = u32_of(v).into(),
+                    "sci_int" => b.sci_int = u16_of(v).into(),
+                    "smi_cmd" => b.smi_cmd = u32_of(v).into(),
+                    "s4bios_req" => b.s4bios_req = u8_of(v),
+                    "pstate_cnt" => b.pstate_cnt = u8_of(v),
+                    "pm1a_evt_blk" => b.pm1a_evt_blk = u32_of(v).into(),
+                    "pm1b_evt_blk" => b.pm1b_evt_blk = u32_of(v).into(),
+                    "pm1a_cnt_blk" => b.pm1a_cnt_blk = u32_of(v).into(),
+                    "pm1b_cnt_blk" => b.pm1b_cnt_blk = u32_of(v).into(),
+                    "pm2_cnt_blk" => b.pm2_cnt_blk = u32_of(v).into(),
+                    "pm_tmr_blk" => b.pm_tmr_blk = u32_of(v).into(),
+                    "pm1_evt_len" => b.pm1_evt_len = u8_of(v),
+                    "pm1_cnt_len" => b.pm1_cnt_len = u8_of(v),
+                    "pm2_cnt_len" => b.pm2_cnt_len = u8_of(v),
+                    "pm_tmr_len" => b.pm_tmr_len = u8_of(v),
+                    "cst_cnt" => b.cst_cnt = u8_of(v),
+                    "p_lvl2_lat" => b.p_lvl2_lat = u16_of(v).into(),
+                    "p_lvl3_lat" => b.p_lvl3_lat = u16_of(v).into(),
+                    "flush_size" => b.flush_size = u16_of(v).into(),
+                    "flush_stride" => b.flush_stride = u16_of(v).into(),
+                    "duty_offset" => b.duty_offset = u8_of(v),
+                    "duty_width" => b.duty_width = u8_of(v),
+                    "day_alrm" => b.day_alrm = u8_of(v),
+                    "mon_alrm" => b.mon_alrm = u8_of(v),
+                    "century" => b.century = u8_of(v),
+                    "iapc_boot_arch" => b.iapc_boot_arch = u16_of(v).into(),
+                    "reset_value" => b.reset_value = u8_of(v),
+                    "arm_boot_arch" => b.arm_boot_arch = u16_of(v).into(),
+                    "hypervisor_vendor_identity" => b.hypervisor_vendor_identity = u64_of(v).into(),
+                    "reset_reg" => b.reset_reg = mk_gas(v),
+                    "x_pm1a_evt_blk" => b.x_pm1a_evt_blk = mk_gas(v),
+                    "x_pm1b_evt_blk" => b.x_pm1b_evt_blk = mk_gas(v),
+                    "x_pm1a_cnt_blk" => b.x_pm1a_cnt_blk = mk_gas(v),
+                    "x_pm1b_cnt_blk" => b.x_pm1b_cnt_blk = mk_gas(v),
+                    "x_pm2_cnt_blk" => b.x_pm2_cnt_blk = mk_gas(v),
+                    "x_pm_tmr_blk" => b.x_pm_tmr_blk = mk_gas(v),
+                    "x_gpe0_blk" => b.x_gpe0_blk = mk_gas(v),
+                    "x_gpe1_blk" => b.x_gpe1_blk = mk_gas(v),
+                    "sleep_control_reg" => b.sleep_control_reg = mk_gas(v),
+                    "sleep_status_reg" => b.sleep_status_reg = mk_gas(v),
+                    f => panic!("fadt field {f}"),
+                }
+                b
+            }
             x => panic!("fadt call {x}"),
         };
     }
@@ -404,7 +453,23 @@ pub fn apply(t: &mut T, c: &Value, done: &[Value], op: &Value, hs: &Hs) -> H {
             };
             H::None
         }
-        T::Bert(_) | T::Facs(_) | T::Rsdp(_) | T::Spcr(_) | T::TcpaClient(_) => panic!("table has no operations: {name}"),
+        T::Facs(f) => match name {
+            "set" => {
+                let v = get(&a, "v");
+                match str_of(get(&a, "f")) {
+                    "hardware_signature" => f.hardware_signature = u32_of(v).into(),
+                    "waking" => f.waking = u32_of(v).into(),
+                    "lock" => f.lock = u32_of(v).into(),
+                    "flags" => f.flags = u32_of(v).into(),
+                    "x_waking" => f.x_waking = u64_of(v).into(),
+                    "ospm_flags" => f.ospm_flags = u32_of(v).into(),
+                    x => panic!("facs field {x}"),
+                }
+                H::None
+            }
+            x => panic!("facs op {x}"),
+        },
+        T::Bert(_) | T::Rsdp(_) | T::Spcr(_) | T::TcpaClient(_) => panic!("table has no operations: {name}"),
     }
 }
 
